@@ -1037,6 +1037,18 @@ pub fn gen_scenario(r: &mut StdRng, o: &GenOpts) -> Value {
                 json!(rs)
             })
             .collect();
+        let mut vr = vr;
+        // every other vehicle states its weight in pounds (20 500 lb = 10.25 short tons); a 10-ton limit then forbids it by 2.5 %
+        if r.gen_bool(0.5) {
+            scn["veh"]["total_weight"] = json!([20500, "pounds"]);
+            for rs in vr.iter_mut() {
+                for x in rs.as_array_mut().unwrap().iter_mut() {
+                    if x["kind"] == "maximum_total_weight" && r.gen_bool(0.5) {
+                        *x = json!({"kind": "maximum_total_weight", "val": 10, "unit": "tons"});
+                    }
+                }
+            }
+        }
         scn["veh_on"] = json!(true);
         scn["vrestr"] = json!(vr);
         scn["vr_order"] = json!(["edge", "interleaved", "reverse", "by_kind"][r.gen_range(0..4)]);
